@@ -5,6 +5,18 @@ V = os.path.dirname(os.path.dirname(os.path.abspath(__file__)))
 props = [json.loads(l) for l in open(os.path.join(V, 'properties.jsonl'))]
 
 CHECKS = {
+ 'C01': dict(level='model_checking', design='3/C01',
+   text='TLC enumerates every edit script within bounds, derives the hunks diff prints for every context width (Diff.tla) and checks on the model that they apply exactly in both directions; every (A,B,c) is rendered in 10 header dialects and several byte spellings and replayed through the real parser+apply in-process (both directions, absent/empty variants), GNU diff output for the same pairs too, and a sample is pushed by the real binary.',
+   note='Trusted: TLC, render.py (cross-checked by GNU diff as second producer). One known finding (context-free hunk at the top of a non-empty file).',
+   technique='TLA+ model of diffs (Diff.tla) + TLC enumeration, rendered and replayed into parse_patch + TextFilePatch::apply and the CLI'),
+ 'C04': dict(level='model_checking', design='3/C04',
+   text='Rollback o Apply = identity (content, existed/absent, permissions; no abort) is an invariant of the ApplyFile model for all enumerated multi-hunk patches (partial applications included), all file-patch kinds x states x directions and LIFO stacks (MC_Kinds); every case is replayed into the real apply/rollback with catch_unwind and compared with the pre-state.',
+   note='Trusted: TLC, harness. Rename rollback is covered at tool level by C05/C08 scenarios.',
+   technique='TLA+ invariant RollbackIsId checked by TLC + replay of all enumerated stacks into TextFilePatch::apply/rollback'),
+ 'C07': dict(level='model_checking', design='3/C07',
+   text='All add() sequences up to the bound: the union/compress algorithm model refines connected components for every thread count (TLC); every sequence is fed to the real FilenameDistributor and its map compared with the components TLC computed.',
+   note='Trusted: TLC, harness. Exhaustive for <=4 adds over 4 names (quick) / 5 names (thorough) plus simulated longer sequences.',
+   technique='TLA+ model (Distributor.tla) checked by TLC, all sequences replayed into FilenameDistributor'),
  'C02': dict(level='model_checking', design='3/C02',
    text='TLC enumerates all files and hunks within small bounds and checks the algorithm model against the placement relation; every enumerated case is replayed into the real TextFilePatch::apply and observations are judged by TLC against the relation (Val_Hunks); seeded random larger cases are validated the same way. Exhaustive within bounds, sampled beyond.',
    note='Trusted: TLC, the Json module, the harness symbol-to-bytes mapping. Bounds in evidence coverage.parts.',
